@@ -32,6 +32,18 @@ theorem unesc_escText (s : Str) (h : ∀ c ∈ s, legalChar c = true) : unesc (e
 theorem unesc_escAttr (s : Str) (h : ∀ c ∈ s, legalChar c = true) : unesc (escAttr s) = s := by
   rw [unesc_escAttr_filter, filter_legal_of_all h]
 
+/-- The hypothesis is exact: a text value comes back unchanged if AND ONLY IF all its characters are
+XML-legal (the others — U+0000–U+001F except TAB/LF/CR, U+FFFE, U+FFFF — are dropped by the writer;
+measured on the real writer for every such code point by the harness sweep). -/
+theorem unesc_escText_iff (s : Str) : unesc (escText s) = s ↔ ∀ c ∈ s, legalChar c = true := by
+  rw [unesc_escText_filter]; exact List.filter_eq_self
+
+/-- The same for attribute values. -/
+theorem unesc_escAttr_iff (s : Str) : unesc (escAttr s) = s ↔ ∀ c ∈ s, legalChar c = true := by
+  rw [unesc_escAttr_filter]; exact List.filter_eq_self
+
+example : unesc (escText ['a', Char.ofNat 1, 'b']) = ['a', 'b'] := by decide
+
 example : ∀ c ∈ "<>&\"' \t\r\n]]>&#60;</a>é😀".toList, legalChar c = true := by decide
 example : unesc (escText "<>&\"' \t\r\n]]>&#60;</a>é😀".toList) = "<>&\"' \t\r\n]]>&#60;</a>é😀".toList := by decide
 example : unesc (escAttr "<>&\"' \t\r\n]]>&#60;</a>é😀".toList) = "<>&\"' \t\r\n]]>&#60;</a>é😀".toList := by decide
@@ -126,6 +138,14 @@ theorem parse_render (n : Str) (as : List (Str × Str)) (ks : List Node)
     (h : WellFormed (.elem n as ks)) :
     parse (render (.elem n as ks)) = some (.elem n as ks) := by
   rw [parse_render_view n as ks (namesOK_of_wellFormed _ h), view_of_wellFormed _ h]
+
+/-- The same statement in the form the codec tier composes with (`Qx.Xml.parse_render_xmlSafe` in
+Qx/Proofs/Xml.lean is the importable lemma): every `XmlSafe` tree with an element root. -/
+theorem parse_render_xmlSafe (t : Node) (he : t.isElem = true) (h : XmlSafe t) : parse (render t) = some t :=
+  Qx.Xml.parse_render_xmlSafe t he h
+
+/-- a blank text node is NOT read back (QDom drops it): why `XmlSafe` demands non-blank text -/
+example : parse (render (.elem "body".toList [] [.text " ".toList])) = some (.elem "body".toList [] []) := by decide +kernel
 
 /-! ## non-vacuity -/
 
